@@ -12,8 +12,8 @@ RULE = (
     "block grammar of DESIGN.md 2.2 (<=16 event types, depth <=3, nested "
     "loops, breaks, detach, bunched merges, several start events, exotic "
     "names) or taken from the 63 corpus files; plus two families that are "
-    "enumerated completely on every run: 1000 loop/break shapes (complete "
-    "sets) and every proper subset of the jobs of four small plain OR forks "
+    "enumerated completely on every run: 1000 loop/break shapes and 320 "
+    "nested-fork shapes (complete sets) and every proper subset of the jobs of four small plain OR forks "
     "(partial views). The jobs are produced by the "
     "reference semantics, learned by the real pv_to_puml_string under a step "
     "bound, and each input job must be accepted by the emitted diagram "
@@ -103,6 +103,15 @@ def run_shard(ctx):
             run_case(case, ctx)
         except Violation as v:
             ctx.violation(case, f"[partial view of {tag}] " + str(v))
+            return
+    # exhaustive nested-fork family (320 definitions, complete sets)
+    for tag, case in pvcase.fork_shape_cases(ctx.seed, ctx.shard,
+                                             ctx.nshards):
+        ctx.count("fork_shapes_enumerated")
+        try:
+            run_case(dict(case, k=2) if ID == "C02" else case, ctx)
+        except Violation as v:
+            ctx.violation(case, f"[fork shape {tag}] " + str(v))
             return
     # exhaustive loop/break family (1000 definitions, complete sets, k=2)
     for tag, case in pvcase.loop_shape_cases(ctx.seed, ctx.shard,
